@@ -45,6 +45,9 @@ def states(tier, seed):
         if two and tier == "quick" and (o["comp"] or o["ground"]):
             continue
         st.append(dict(topo="aero", two=two, pt=pt, fam=fam, **o))
+    if tier == "quick":
+        st.append(dict(topo="aero", two=True, pt="base", fam=fam, sym=False, comp=False, ground=False, visc=True, wave=False, rot=True))
+        st.append(dict(topo="aero", two=True, pt="base", fam=fam, sym=False, comp=True, ground=False, visc=False, wave=False, rot=True))
     # --- struct alone
     for model, sym, relief, pm, pt in itertools.product(["tube", "wingbox"], [True, False], [False, True], [False, True], pts):
         if tier == "quick" and (relief != pm):
@@ -120,7 +123,10 @@ def aero_model(s, mode):
         fl["height_agl"] = 6.0
     rot = s.get("rot", False)
     if rot:
-        fl["omega"] = [0.1, -0.2, 0.3]
+        # rotation-induced onset velocities of the order of a fifth of the free stream (they differ from panel to panel and from
+        # surface to surface)
+        fl["omega"] = [0.7, 0.26, -0.35]
+        fl["v"] = 60.0
     p = builders.build_aero(surfs, fl, compressible=s["comp"], with_geom=True, mode=mode, rotational=rot)
     of = ["ap.CL", "ap.CD", "ap.CM"] + ["ap.%s_perf.%s" % (x["name"], q) for x in surfs for q in ("CL", "CDi")]
     wrt = ["alpha", "v", "rho", "re", "Mach_number", "cg", "wing.twist_cp", "wing.chord_cp", "wing.sweep", "wing.taper", "wing.dihedral", "wing.xshear_cp", "wing.zshear_cp", "wing.t_over_c_cp"]
